@@ -114,6 +114,24 @@ Bind4 == {B4(ps, <<v>>, NoKw(ps), NoKw(ps)) : ps \in {p \in OneParam : p[1].kind
             : ps \in OneParam, v1 \in FalsyVals \cup {[t |-> "int", v |-> "1"]}, v2 \in FalsyVals \cup {NoVal}}
     \cup {B4(ps, <<v, w>>, NoKw(ps), NoKw(ps)) : ps \in TwoPk, v \in FalsyVals, w \in FalsyVals}
 
+\* structured values (type name, canonical constructor text the harness evaluates and reports back): the job must carry the
+\* very values that were bound - same type, same content - not a converted copy
+StructVals == {[t |-> "DC", v |-> "DC(x=1, y='a')"],                          \* a dataclass instance
+               [t |-> "PM", v |-> "PM(x=1, y='a')"],                          \* a pydantic model instance
+               [t |-> "NT", v |-> "NT(x=1, y='a')"],                          \* a namedtuple
+               [t |-> "OrderedDict", v |-> "OrderedDict([('k', 1), ('j', 2)])"],
+               [t |-> "defaultdict", v |-> "defaultdict(int, {'k': 1})"],
+               [t |-> "set", v |-> "{1, 2}"], [t |-> "frozenset", v |-> "frozenset({1, 2})"],
+               [t |-> "tuple", v |-> "(1, 'a')"], [t |-> "tuple", v |-> "()"], [t |-> "bytes", v |-> "b'ab'"],
+               [t |-> "list", v |-> "[1, [2, {'k': (3, 4)}]]"], [t |-> "list", v |-> "[DC(x=1, y='a'), NT(x=2, y='b')]"],
+               [t |-> "dict", v |-> "{'k': [1, {'j': PM(x=1, y='a')}], 'i': {5}}"]}
+OneAny(k, d) == <<[name |-> "a", kind |-> k, ann |-> "", dflt |-> d]>>
+\* one un-annotated parameter: bound positionally / by keyword to a structured value (over no default or a plain one), or
+\* left at a structured default
+Bind5 == {B4(OneAny("pk", d), <<v>>, NoKw(OneAny("pk", d)), NoKw(OneAny("pk", d))) : d \in {NoVal, [t |-> "int", v |-> "5"]}, v \in StructVals}
+    \cup {B4(OneAny(k, d), <<>>, [nm \in {"a"} |-> v], NoKw(OneAny(k, d))) : k \in {"pk", "ko"}, d \in {NoVal, [t |-> "int", v |-> "5"]}, v \in StructVals}
+    \cup {B4(OneAny(k, v), <<>>, NoKw(OneAny(k, v)), NoKw(OneAny(k, v))) : k \in {"pk", "ko"}, v \in StructVals}
+
 KwJson(kw) == SetToSeq({<<nm, kw[nm]>> : nm \in {x \in DOMAIN kw : kw[x] # NoVal}})
 BindJson(c) == [kind |-> "bind", params |-> c.params, decor |-> c.decor, ret |-> c.ret, args |-> c.args, split |-> c.split,
                 kw |-> KwJson(c.kw), kw2 |-> IF "kw2" \in DOMAIN c THEN KwJson(c.kw2) ELSE <<>>]
@@ -231,7 +249,7 @@ Post(c, r) == IF c.kind = "bind" THEN PostBind(c, r) ELSE PostEdge(c, r)
 Generate == IF IOEnv.CASES_FILE = "none" THEN TRUE ELSE
             LET b == SetToSeq(Bind)
                   b3 == SetToSeq(Bind3)
-                  b4 == SetToSeq(Bind4)
+                  b4 == SetToSeq(Bind4 \cup Bind5)
                   s == [i \in 1..Len(b) |-> BindJson(b[i])] \o [i \in 1..Len(b3) |-> BindJson(b3[i])] \o [i \in 1..Len(b4) |-> BindJson(b4[i])]
                        \o SetToSeq(Edge1) \o SetToSeq(Edge2) \o SetToSeq(Edge3)
               IN JsonSerialize(IOEnv.CASES_FILE, s)
